@@ -82,7 +82,7 @@ def decode(sx, case):
         model = {"parse": ["err", m[1]]}
     else:
         origin, index, ptr = m[1]
-        model = {"parse": ["ok", int(origin), int(index), "hash" if ptr == "hash" else sx_parts_typed(ptr)],
+        model = {"parse": ["ok", SX.big_int(origin), SX.big_int(index), "hash" if ptr == "hash" else sx_parts_typed(ptr)],
                  "text": SX.sx2s(m[2])}
         t = m[3]
         model["to"] = ["ok", sx_parts_typed(t[1][0]), SX.sx2s(t[1][1])] if t[0] == "ok" else ["err", t[1]]
